@@ -352,6 +352,7 @@ class Executor(object):
         s.on_path_end = None
         s.keep_states = True
         s.max_wall = 0
+        s.limit_is_hang = False
         s.atomic_now = False
         s.preempt_bound = 0
         s.preempt_range = None
@@ -434,6 +435,11 @@ class Executor(object):
             s.on_path_end(s, st, status)
         s.results.append(PathResult(status, detail, st))
         if status not in ('ok', 'assume_false', 'exit'):
+            if status == 'limit' and s.limit_is_hang:
+                model = s.model_for(st)
+                s.violations.append(Violation('hang', 'no termination within %d executed instructions (%s)' % (
+                    s.max_steps, s.where(st).split(' <- ')[0]), model, st.inputs, s.where(st)))
+                return
             if status in ('limit', 'unsupported', 'enum_limit'):
                 return
             model = s.model_for(st)
